@@ -11,3 +11,8 @@ def lemma_induction(n):
         inst(j)
         j = j + 1
     return j
+
+
+def lemma_algebra():
+    """a lemma of real arithmetic: the statement (requires => ensures over free real constants) is supplied by the lemma contract; no proof steps"""
+    return 0
